@@ -365,3 +365,8 @@ func PendingTimer() time.Duration { return -1 }
 
 // PendingTimers is the number of armed timers some goroutine is waiting on (engine only; natively 0).
 func PendingTimers() int { return 0 }
+
+// Redirect substitutes, under the engine only, the model function fn (same signature) for the library
+// function called name (e.g. "encoding/asn1.Marshal"). Natively the real library runs, so every native
+// replay of a passing path doubles as a differential test of the model against the real library.
+func Redirect(name string, fn interface{}) {}
